@@ -79,6 +79,29 @@ def run(ctx):
                           "%s in free-running execution of %s (%d times): outs=%s" % (
                               b["what"], r["name"], r["count"], [(o["sess"], o["tag"], o["id"]) for o in r["outs"]]),
                           {"kind": "free-run", "program": r["name"], "threads": r["threads"], "outcome": r["outs"]})
+    # the correlator as the daemon wires it: both halves of a session handed to Auditd.Read at the same moment from two
+    # goroutines (Logins channel into Read's loop / Audits channel into the parser and reassembler goroutines); free
+    # running, many repetitions, judged by TrackerTrace at the end of every round
+    from checks import tracker
+    sb = ctx.go_build("./cmd/l2stress")
+    stp = ctx.path("trace-l2stress.ndjson")
+    rounds = 400 if ctx.quick else 4000
+    sp2 = ctx.run([sb, "-out", stp, "-seed", str(ctx.seed), "-rounds", str(rounds)], timeout=1800)
+    sst = json.loads(sp2.stdout.strip().splitlines()[-1])
+    shs = tracker.split_trace(stp)
+    sbad, _, _ = tracker.validate(ctx, shs, "l2stress", cfg="TrackerTraceL2.cfg")
+    seen_w = set()
+    for hidx, line, what in sbad:
+        if what not in ("ExactlyOnce", "Identity", "Silence", "NoPanic") or what in seen_w:
+            continue
+        seen_w.add(what)
+        recs2 = tracker.hist_of(shs[hidx])
+        n = len({h for h, _, w in sbad if w == what})
+        ctx.violation("Wiring/%s" % what,
+                      "%s violated in %d of %d rounds in which the login and the LOGIN record of six sessions were handed to "
+                      "Auditd.Read at the same moment from two goroutines; e.g. emitted %s" % (
+                          what, n, rounds, [(o["sess"], o["tag"], o["id"]) for o in recs2[-1].get("outs", [])]),
+                      {"kind": "l2-concurrent-round", "round": hidx, "calls": recs2[1:-1], "observed": recs2[-1]})
     # binding self-test
     muts = []
     badkeys = {json.dumps([b["rec"]["name"], b["rec"]["outs"]], sort_keys=True) for b in bad}
@@ -105,6 +128,7 @@ def run(ctx):
                      "schedule": r["sched"], "outs": [(o["sess"], o["tag"], o["id"]) for o in r["outs"]],
                      "schedules_with_this_outcome": r["count"]} for r in recs[:3]],
         "schedules_executed": stats["schedules"], "per_program": stats["per_program"],
+        "concurrent_pairs_through_Auditd_Read": sst["pairs"],
         "distinct_outcomes": len(recs), "free_running_race_runs": len(progs) * reps, "data_races": nraces,
         "vacuity_guard": "TrackerMutex=FALSE violates %s" % vac["violated"],
         "binding_selftest_mutants_rejected": len(muts),
